@@ -168,6 +168,31 @@ theorem runTr_perm (π : List Nat) (t t' : Tr) (h : permTr rules pairs fin π t 
 
 end Perm
 
+/-- moving a comparison to the root does not change the meaning of a trace (no law needed) -/
+theorem runTr_mkIte {I : Interp} (ρ : Name → I.S) (c : Cond) (a b : Tr) :
+    runTr I ρ (mkIte c a b) = runTr I ρ (.ite c a b) := by
+  induction a generalizing b with
+  | leaf r => cases b <;> rfl
+  | ite c1 x1 y1 ihx ihy =>
+      cases b with
+      | leaf r => rfl
+      | ite c2 x2 y2 =>
+          unfold mkIte
+          split
+          · next h =>
+              obtain ⟨rfl, _⟩ := h
+              simp only [runTr, ihx, ihy]
+              split <;> split <;> rfl
+          · rfl
+
+theorem runTr_sortTr {I : Interp} (ρ : Name → I.S) (t : Tr) : runTr I ρ (sortTr t) = runTr I ρ t := by
+  induction t with
+  | leaf r => rfl
+  | ite c a b iha ihb =>
+      simp only [sortTr]
+      rw [runTr_mkIte]
+      simp only [runTr, iha, ihb]
+
 /-- `permOK` is a sound test: the model at the permuted parameter expressions `args` is the `π`-relabelled model (evaluated
     at the relabelled sample sizes) -/
 theorem permOK_sound {I : Interp} {tbl : List Model} {sigs : List Sig} {rules : List PermRule} {pairs : List PairRule}
@@ -204,7 +229,8 @@ theorem permOK_sound {I : Interp} {tbl : List Model} {sigs : List Sig} {rules : 
             rw [hsa] at hna; rw [hsb] at hnb
             simp only [Option.map_some, Option.some.injEq] at hna hnb
             show runTr I ρ ta0 = (runTr (I.withFinishArgs (f π)) ρ tb0).map (τOut π)
-            rw [← runTr_norm hI ρ ta0, ← runTr_norm (hI.withFinishArgs (f π)) ρ tb0, hna, hnb]
-            exact runTr_perm ρ hP π tb ta h
+            rw [← runTr_norm hI ρ ta0, ← runTr_norm (hI.withFinishArgs (f π)) ρ tb0, hna, hnb,
+              ← runTr_sortTr ρ ta, ← runTr_sortTr ρ tb]
+            exact runTr_perm ρ hP π (sortTr tb) (sortTr ta) h
 
 end DadiVerif.ModelDSL
